@@ -45,6 +45,10 @@ RULE = (
     "use); every request carries its own client's user; agent verdict counters "
     "clean (repeated discovery allowed); no 'never awaited' / 'exception never retrieved' "
     "events. Distinct = distinct (operation set, answer order) pairs observed."
+    " Third clock mode \"ticking\" (some operations share an id, others do not); operation kind"
+    "s bulkget / multiwalk2 whose argument lists are shared by all operations of an execution"
+    "; the small deterministic blocks (slow get during a long walk, ticking sets, cancellatio"
+    "ns) run before the enumeration, which may use at most 60% of the time cap."
 )
 ASSUMPTIONS = [
     "operations in one set commute (sets go to private OIDs nobody else reads)",
